@@ -128,6 +128,24 @@ def step (net : Net) (ws : List String) : Net × String :=
   if ws.head? = some "crash" then (net, "ok") else   -- harness bookkeeping only (node stops acting)
   if ws.head? = some "converged" then
     (net, "conv " ++ boolStr (converged net (parseIdList (ws.getD 1 "-")))) else
+  if ws.head? = some "pexpire" then
+    -- `pexpire n d src`: the expiry sweep at `n` and a digest of `src` arriving concurrently.  The
+    -- sweep and its notifications are one atomic step, so this is: sweep, then the digest.
+    match ws with
+    | [_, n, d, src] =>
+      match d.toInt? with
+      | none => (net, "bad-op")
+      | some k =>
+        let r := net.step (.expire (hx n) (if k ≤ 0 then 0 else k.toNat * 1000000000))
+        match r.err, r.net.nodes.find (hx n), r.net.nodes.find (hx src) with
+        | none, some s, some ssrc =>
+          if hx n = hx src then (net, "err no-node") else
+          let (s', ev2) := applyDigest s (sortDigest (digest ssrc))
+          let net' := r.net.setNode (hx n) s'
+          (net', "pexpire " ++ hexEnc (hx n) ++ " st=" ++ showState s' ++ " ev=" ++ showEvents true (r.events ++ ev2) ++ " out=[]")
+        | _, _, _ => (net, "err no-node")
+    | _ => (net, "bad-op")
+  else
   match parseOp ws with
   | none => (net, "bad-op")
   | some (op, sortEv) =>
